@@ -88,6 +88,11 @@ var c08IllTyped = []struct{ name, patch, stmt string }{
 	{"empty-block-comment", "@@\n@@\n-{ /* c */ }\n+{ bar() }\n", "foo(1)"},
 	// an identifier metavariable bound to an absent (nil) node and reused elsewhere
 	{"nil-label-metavar", "@@\nvar x identifier\n@@\n-continue x\n+foo(x)\n+continue x\n", "for range s {\n\t\tcontinue\n\t}"},
+	{"nil-label-expr-metavar-return", "@@\nvar x expression\n@@\n-continue x\n+return x\n", "for range s {\n\t\tcontinue\n\t}"},
+	{"nil-label-expr-metavar-call", "@@\nvar x expression\n@@\n-break x\n+foo(x)\n", "for range s {\n\t\tbreak\n\t}"},
+	{"nil-label-expr-metavar-list", "@@\nvar x expression\n@@\n-continue x\n+foo(1, x, 2)\n+_ = []int{x}\n", "for range s {\n\t\tif a {\n\t\t\tcontinue\n\t\t}\n\t}"},
+	{"nil-else-metavar", "@@\nvar x expression\n@@\n-return x\n+foo(x)\n", "return"},
+	{"nil-init-metavar", "@@\nvar x, y expression\n@@\n-x[y]\n+foo(y, x)\n", "_ = a[:]\n\t_ = m[k]"},
 	{"nil-label-break", "@@\nvar x identifier\n@@\n-break x\n+bar(x)\n", "for {\n\t\tbreak\n\t}"},
 	{"nil-else-metavar", "@@\nvar x expression\n@@\n-return x\n+return wrap(x)\n", "return"},
 	// a target with //line directives: positions reported by the file set are not physical lines
@@ -227,7 +232,7 @@ func (c08) Describe() CheckInfo {
 		},
 		RealCode:       []string{"gopatch main(), loader, internal/parse (section splitter, meta parser), internal/pgo (augmenter), internal/engine, patch.Parse/File.Apply"},
 		Stubs:          []string{"package os (patch delivered through simulated files and a chunked simulated stdin)", "path/filepath walk", "io/ioutil"},
-		RequiredProbes: []string{"trunc-patch", "trunc-target", "flip-patch", "flip-target", "cross", "read-error-fired", "ill-typed", "op-fault", "ill-cross", "scale", "two-change", "bulk", "bulk-memory-measured", "patch-list-layouts", "cli-forms", "stdin-is-a-terminal", "op-fault-second-actor", "tree", "tree-symlink-cycle", "patch-rejected", "patch-accepted", "stdin-short-reads", "api-parse", "api-apply"},
+		RequiredProbes: []string{"trunc-patch", "trunc-target", "flip-patch", "flip-target", "cross", "read-error-fired", "ill-typed", "op-fault", "ill-cross", "scale", "two-change", "bulk", "bulk-memory-measured", "bulk-growth-measured", "patch-list-layouts", "cli-forms", "stdin-is-a-terminal", "op-fault-second-actor", "tree", "tree-symlink-cycle", "patch-rejected", "patch-accepted", "stdin-short-reads", "api-parse", "api-apply"},
 	}
 }
 
@@ -659,6 +664,23 @@ func (c08) Eval(env *Env, c *Case) (vs []Violation) {
 		}
 		runtime.GC()
 		debug.FreeOSMemory()
+		// order of growth: twice the elements, all of them rewritten, may cost four
+		// times the steps (quadratic, as today), not eight times and more
+		if half := c08GrowthHalf(c.Extra["what"]); half != nil && r.Outcome == OutExit && r.Exit == 0 {
+			hs := spec.Clone()
+			for k := range hs.Nodes {
+				if hs.Nodes[k].Path == c.Files[0].Path {
+					hs.Nodes[k].Data = half
+				}
+			}
+			rh := env.Run(hs)
+			if rh.Outcome == OutExit && rh.Exit == 0 && rh.Steps > 100_000 {
+				env.Probe("bulk-growth-measured")
+				if ratio := float64(r.Steps) / float64(rh.Steps); ratio > 6.5 {
+					add("growth", "worse-than-quadratic", fmt.Sprintf("rewriting every element of a list: %d steps for the list of half the length, %d steps for the whole one (factor %.1f; quadratic would be 4)", rh.Steps, r.Steps, ratio))
+				}
+			}
+		}
 	}
 	outcome := r.Outcome
 	switch r.Outcome {
